@@ -92,7 +92,7 @@ PROPS["C03"] = doc_prop(
     "C03",
     quick=[bfs("MC_C03", "C03_quick")],
     thorough=[bfs("MC_C03", "C03_thorough")],
-    sample_quick=60000, sample_thorough=700000,
+    sample_quick=60000, sample_thorough=200000,   # every run is also checked step by step against TextFilters.tla (Blocks)
     rule="cases = every child sequence of a paragraph up to the bound over {text, ws, br, inline, link, js link, font} "
          "x placement; non-trivial = the page had a simple paragraph with >= 2 word-bearing text nodes",
     nontrivial_key="para_multi", expand=wraps_c03, small=4,
